@@ -377,16 +377,16 @@ theorem runTick_accepted (cfg : HCfg) (rank : List View → List View) (dl : Opt
     exact ⟨m2, mrun_append_of hr1 hr2, hi2, ha2⟩
 
 /-- **Every history of the model is accepted by the automaton**, from any state that matches the plugin's hook state. -/
-theorem runHistory_accepted (cfg : HCfg) (rank : List View → List View) :
+theorem runHistory_accepted (cfg : HCfg) :
     ∀ (ticks : List TickIn) (st : Option Pending) (saved : Option (Option Nat)) (env : HEnv) (m : Mon), InvSt m st →
-      ∃ m', mrun cfg.prio cfg.pats m (flat (runHistory cfg rank st saved ticks env)) = some m' := by
+      ∃ m', mrun cfg.prio cfg.pats m (flat (runHistory cfg st saved ticks env)) = some m' := by
   intro ticks
   induction ticks with
   | nil => intro st saved env m _; exact ⟨m, rfl⟩
   | cons ti rest ih =>
     intro st saved env m hm
     simp only [runHistory, flat, List.flatMap_cons]
-    obtain ⟨m1, hr1, hi1, _⟩ := runTick_accepted cfg rank
+    obtain ⟨m1, hr1, hi1, _⟩ := runTick_accepted cfg ti.rank
       (curDl saved ti) ti.top ti.roots st env m hm
     obtain ⟨m2, hr2⟩ := ih _ _ _ m1 hi1
     exact ⟨m2, mrun_append_of hr1 hr2⟩
@@ -1063,12 +1063,12 @@ open OomdModel.Kill
 theorem invSt_init : InvSt Mon.init none := ⟨⟨rfl, rfl⟩, rfl⟩
 
 /-- a statement about single `run()` calls from matching states holds for every tick of every history -/
-theorem runHistory_forall (cfg : HCfg) (rank : List View → List View) (Q : TickOut → Prop)
-    (hQ : ∀ dl top roots st env m, InvSt m st →
+theorem runHistory_forall (cfg : HCfg) (Q : TickOut → Prop)
+    (hQ : ∀ rank dl top roots st env m, InvSt m st →
       Q { dl := dl, evs := (runTick cfg rank dl top roots st env).evs, ret := (runTick cfg rank dl top roots st env).val.2,
           st := (runTick cfg rank dl top roots st env).val.1 }) :
     ∀ (ticks : List TickIn) (st : Option Pending) (saved : Option (Option Nat)) (env : HEnv) (m : Mon), InvSt m st →
-      ∀ out ∈ runHistory cfg rank st saved ticks env, Q out := by
+      ∀ out ∈ runHistory cfg st saved ticks env, Q out := by
   intro ticks
   induction ticks with
   | nil => intro st saved env m _ out ho; simp [runHistory] at ho
@@ -1076,23 +1076,23 @@ theorem runHistory_forall (cfg : HCfg) (rank : List View → List View) (Q : Tic
     intro st saved env m hm out ho
     simp only [runHistory, List.mem_cons] at ho
     rcases ho with rfl | ho
-    · exact hQ _ _ _ _ _ m hm
-    · obtain ⟨m1, _, hi1, _⟩ := runTick_accepted cfg rank
+    · exact hQ _ _ _ _ _ _ m hm
+    · obtain ⟨m1, _, hi1, _⟩ := runTick_accepted cfg ti.rank
         (curDl saved ti) ti.top ti.roots st env m hm
       exact ih _ _ _ m1 hi1 out ho
 
-theorem runHistory_length (cfg : HCfg) (rank : List View → List View) :
+theorem runHistory_length (cfg : HCfg) :
     ∀ (ticks : List TickIn) (st : Option Pending) (saved : Option (Option Nat)) (env : HEnv),
-      (runHistory cfg rank st saved ticks env).length = ticks.length := by
+      (runHistory cfg st saved ticks env).length = ticks.length := by
   intro ticks
   induction ticks with
   | nil => intro st saved env; rfl
   | cons ti rest ih => intro st saved env; simp [runHistory, ih]
 
 /-- the deadline a `run()` sees: that of the previous `run()` if that one returned ASYNC_PAUSED, else the one of a chain fired now -/
-theorem runHistory_dl_next (cfg : HCfg) (rank : List View → List View) :
+theorem runHistory_dl_next (cfg : HCfg) :
     ∀ (ticks : List TickIn) (st : Option Pending) (saved : Option (Option Nat)) (env : HEnv) (i : Nat) (o1 o2 : TickOut) (ti : TickIn),
-      (runHistory cfg rank st saved ticks env)[i]? = some o1 → (runHistory cfg rank st saved ticks env)[i + 1]? = some o2 →
+      (runHistory cfg st saved ticks env)[i]? = some o1 → (runHistory cfg st saved ticks env)[i + 1]? = some o2 →
       ticks[i + 1]? = some ti → o2.dl = if o1.ret = .async then o1.dl else ti.freshDl := by
   intro ticks
   induction ticks with
@@ -1111,16 +1111,16 @@ theorem runHistory_dl_next (cfg : HCfg) (rank : List View → List View) :
         simp only [runHistory, List.getElem?_cons_zero, Option.some.injEq] at h2
         subst h1 h2
         simp only
-        by_cases hr : (runTick cfg rank (curDl saved t0) t0.top t0.roots st env).val.2 = Ret.async
+        by_cases hr : (runTick cfg t0.rank (curDl saved t0) t0.top t0.roots st env).val.2 = Ret.async
         · rw [if_pos hr, if_pos hr]; rfl
         · rw [if_neg hr, if_neg hr]; rfl
     | succ j =>
       simp only [runHistory, List.getElem?_cons_succ] at h1 h2 hti
       exact ih _ _ _ j o1 o2 ti h1 h2 hti
 
-theorem runHistory_dl_first (cfg : HCfg) (rank : List View → List View) (ti : TickIn) (rest : List TickIn)
+theorem runHistory_dl_first (cfg : HCfg) (ti : TickIn) (rest : List TickIn)
     (st : Option Pending) (env : HEnv) (o : TickOut)
-    (h : (runHistory cfg rank st none (ti :: rest) env)[0]? = some o) : o.dl = ti.freshDl := by
+    (h : (runHistory cfg st none (ti :: rest) env)[0]? = some o) : o.dl = ti.freshDl := by
   simp only [runHistory, List.getElem?_cons_zero, Option.some.injEq] at h
   subst h; rfl
 
